@@ -381,7 +381,10 @@ def Payload.isSK : Payload → Bool
 theorem knownType_typeCode (p : Payload) : knownType p.typeCode = true := by
   cases p <;> (simp only [Payload.typeCode]; decide)
 
-theorem chainStep_encoded (p : Payload) (data tl : Bytes) (nx : UInt8) (hrt : PayloadRT p)
+theorem typeCode_ne_sk (p : Payload) (h : p.isSK = false) : (p.typeCode == Facts.typeSK) = false := by
+  cases p <;> first | (simp only [Payload.typeCode]; decide) | (simp [Payload.isSK] at h)
+
+theorem chainStep_encoded (p : Payload) (data tl : Bytes) (nx : UInt8) (hrt : PayloadRT p) (hsk : p.isSK = false)
     (hm : marshalPayload p = .ok data) (hlen : 4 + data.length ≤ 0xFFFF) :
     chainStep p.typeCode ([nx, 0] ++ put16 (UInt16.ofNat (4 + data.length)) ++ data ++ tl)
       = .ok (some p, nx, 4 + data.length) := by
@@ -400,6 +403,8 @@ theorem chainStep_encoded (p : Payload) (data tl : Bytes) (nx : UInt8) (hrt : Pa
   rw [if_neg h4, hl, if_neg (by len_omega)]
   go_steps
   rw [if_pos (knownType_typeCode p)]
+  rw [typeCode_ne_sk p hsk]
+  simp only [Bool.false_and, Bool.false_eq_true, if_false]
   go_steps
   have hbody : List.drop 4 (List.take (4 + data.length) ([nx, 0] ++ put16 v ++ data ++ tl)) = data := by
     simp only [put16, List.cons_append, List.nil_append, List.append_assoc]
@@ -437,7 +442,7 @@ theorem rt_chain (ps : List Payload) (bs : Bytes)
             | cons q _ => rfl
             | nil => cases p <;> first | rfl | (simp [Payload.isSK] at hsk)
           rw [hnext]
-          have hstep := chainStep_encoded p data tl (firstType rest) hp hm (by omega)
+          have hstep := chainStep_encoded p data tl (firstType rest) hp hsk hm (by omega)
           show decodeChain p.typeCode _ = _
           rw [decodeChain]
           rw [dif_neg (by len_omega)]
